@@ -14,7 +14,7 @@
 (***************************************************************************)
 EXTENDS Staging
 
-CONSTANTS Names, Conts, Limits, MaxReq, MaxChg, MaxStore, KindSet, ROs, ExtNames, MaxFiles
+CONSTANTS Names, Conts, Limits, MaxReq, MaxChg, MaxStore, KindSet, ROs, ExtNames, MaxFiles, FaultSet
 
 VARIABLES m,      \* call-protocol state (Staging!NewProto)
           root,   \* the disk below the synchronization root
@@ -23,6 +23,11 @@ VARIABLES m,      \* call-protocol state (Staging!NewProto)
           recv,   \* what the receiver returned by the last Stage still expects: Seq([path, d])
           bad     \* monitor: name of the first property operator the last call violated ("" = none)
 vars == <<m, root, rcache, store, recv, bad>>
+
+\* fault menus for the configurations (a cfg file cannot hold records)
+FaultsNone == {NoFault}
+FaultsQuick == {NoFault, [step |-> "final", how |-> "short"]}
+FaultsAll == AllFaults
 
 Roots == {D(c) : c \in PartialFns(Names, {F(x, FALSE) : x \in Conts})}
 
@@ -44,17 +49,19 @@ FirstBad(checks) == IF \A i \in DOMAIN checks : checks[i][2] THEN ""
                     ELSE checks[CHOOSE i \in DOMAIN checks : ~checks[i][2] /\ \A j \in 1..(i - 1) : checks[j][2]][1]
 
 JudgeScan(err) == FirstBad(<< <<"C41_ScanLimit", C41_ScanLimit(m, root, err)>> >>)
-JudgeStage(req, err, ret, store1) ==
-  FirstBad(<< <<"C41_StageRefusal", C41_StageRefusal(m, req, err)>>,
+HitOf(items, fault) == {[path |-> items[j].path, d |-> items[j].d] : j \in {i \in DOMAIN items : Fires(fault, UnitsOf(items[i].d))}}
+JudgeStage(req, err, ret, store1, fault) ==
+  FirstBad(<< <<"C10_WriteFaultsSurface", C10_WriteFaultsSurface(HitOf(req, fault), store, store1)>>, <<"C41_StageRefusal", C41_StageRefusal(m, req, err)>>,
               <<"C41_ReadOnlyRefuses", C41_ReadOnlyRefuses(m, err, root, root, store, store1)>>,
               <<"C41_StageSubseq", err = "" => C41_StageSubseq(req, ret)>>,
               <<"C41_OmittedAvailable", err = "" => C41_OmittedAvailable(root, store, req, ret, store1)>>,
-              <<"C41_RequestedNeeded", err = "" => C41_RequestedNeeded(m, root, store, req, ret)>>,
+              <<"C41_RequestedNeeded", err = "" => C41_RequestedNeeded(m, {x.path : x \in HitOf(req, fault)}, root, store, req, ret)>>,
               <<"C10_StoreContentAddressed", C10_StoreContentAddressed(store1)>> >>)
-JudgeRecv(kinds, store1) ==
-  FirstBad(<< <<"C10_StoreContentAddressed", C10_StoreContentAddressed(store1)>>,
+JudgeRecv(kinds, store1, fault) ==
+  FirstBad(<< <<"C10_WriteFaultsSurface",
+                C10_WriteFaultsSurface(HitOf(SelectSeq(recv, LAMBDA x : \E j \in DOMAIN recv : recv[j] = x /\ kinds[j] = "exact"), fault), store, store1)>>, <<"C10_StoreContentAddressed", C10_StoreContentAddressed(store1)>>,
               <<"C10_FittingTransferStaged",
-                C10_FittingTransferStaged(m.init /\ \A j \in DOMAIN kinds : kinds[j] \notin {"abort", "abort0"}, m.maxfile,
+                C10_FittingTransferStaged(m.init /\ fault = NoFault /\ \A j \in DOMAIN kinds : kinds[j] \notin {"abort", "abort0"}, m.maxfile,
                    [j \in DOMAIN recv |-> [path |-> recv[j].path, d |-> recv[j].d, kind |-> kinds[j], sz |-> UnitsOf(recv[j].d)]],
                    store1)>> >>)
 JudgeTrans(chg, err, results, nprob, missing, root1, store1) ==
@@ -73,24 +80,24 @@ DoScan ==
   /\ bad' = JudgeScan(IF ScanOver(m, root) THEN "over" ELSE "")
   /\ UNCHANGED <<root, store, recv>>
 
-DoStage(req) ==
+DoStage(req, fault) ==
   /\ m' = StageUpd(m, Len(req))
   /\ IF StageRefused(m, Len(req)) THEN
-        /\ bad' = JudgeStage(req, "refused", <<>>, store)
+        /\ bad' = JudgeStage(req, "refused", <<>>, store, NoFault)
         /\ UNCHANGED <<store, recv>>
-     ELSE \E o \in StageWalk(m, root, req, store, <<>>) :
+     ELSE \E o \in StageWalk(m, root, req, store, <<>>, fault) :
         /\ store' = o.store
         /\ recv' = SelectSeq(req, LAMBDA r : \E j \in DOMAIN o.ret : o.ret[j] = r.path)
-        /\ bad' = JudgeStage(req, "", o.ret, o.store)
+        /\ bad' = JudgeStage(req, "", o.ret, o.store, fault)
   /\ Cardinality(store') <= MaxStore
   /\ UNCHANGED <<root, rcache>>
 
 \* (a receiver that outlives the transition of its cycle finds the store finalized -
 \* Allocate fails, every file is burnt - so the model forgets it there)
-DoRecv(kinds) ==
+DoRecv(kinds, fault) ==
   /\ recv # <<>>
-  /\ store' = RecvWalk(recv, kinds, store, m.maxfile)
-  /\ bad' = JudgeRecv(kinds, store')
+  /\ store' = RecvWalk(recv, kinds, store, m.maxfile, fault)
+  /\ bad' = JudgeRecv(kinds, store', fault)
   /\ Cardinality(store') <= MaxStore
   /\ recv' = <<>>
   /\ UNCHANGED <<m, root, rcache>>
@@ -119,8 +126,8 @@ DoExt(n, v) ==
   /\ UNCHANGED <<rcache, store, recv>>
 
 Next == \/ DoScan
-        \/ \E req \in Reqs : DoStage(req)
-        \/ \E kinds \in [DOMAIN recv -> KindSet] : DoRecv(kinds)
+        \/ \E req \in Reqs, fault \in FaultSet : DoStage(req, fault)
+        \/ \E kinds \in [DOMAIN recv -> KindSet], fault \in FaultSet : DoRecv(kinds, fault)
         \/ \E chg \in Plans : DoTrans(chg)
         \/ \E n \in ExtNames, v \in FileOrNil : DoExt(n, v)
 Spec == Init /\ [][Next]_vars
